@@ -303,6 +303,12 @@ def gen_cases(ctx, rng, scale):
             pmax = (N - 1) / 3.0
             perp = rng.choice([pmax, 2.0, min(pmax, 3.5), 1.0 + rng.random() * (pmax - 1.0)])
             add({"kind": "PK", "X": qs(pts), "perp": fl(perp), "K": int(3 * perp)}, "PK/" + kind)
+    # PK with coincident samples (the query is not necessarily the first result of the tree search)
+    for _ in range(3 * scale):
+        N = rng.choice([8, 12, 20])
+        pts = gen_points(rng, N, 2, "coincident")
+        perp = rng.choice([2.0, (N - 1) / 3.0])
+        add({"kind": "PK", "X": qs(pts), "perp": fl(perp), "K": int(3 * perp)}, "PK/coincident")
     # PD: dense conditional similarities (generic doubles)
     for _ in range(8 * scale):
         N, D = rng.choice([5, 9, 16, 30]), rng.choice([1, 2, 4])
@@ -357,10 +363,12 @@ def gen_cases(ctx, rng, scale):
 
 def gen_api_cases(ctx, rng, quick):
     cases = []
-    specs = [(24, 3, 2, 2, 4.0, 0.0), (36, 2, 2, 3, 5.0, 0.5), (12, 2, 1, 2, 2.0, 0.0), (18, 3, 3, 2, 3.0, 0.5)]
+    specs = [(24, 3, 2, 2, 4.0, 0.0), (36, 2, 2, 3, 5.0, 0.5), (12, 2, 1, 2, 2.0, 0.0), (18, 3, 3, 2, 3.0, 0.5),
+             (30, 2, 2, 2, 4.0, 0.01)]
     if not quick:
-        specs += [(60, 4, 2, 3, 10.0, 0.5), (60, 4, 2, 4, 8.0, 0.0), (45, 2, 2, 3, 14.0, 0.2), (30, 3, 3, 2, 5.0, 0.0),
-                  (40, 2, 2, 2, 6.0, 1.0), (90, 5, 2, 3, 20.0, 0.5)]
+        # perplexity at most a third of the cluster size: otherwise the neighbourhoods themselves span clusters
+        specs += [(60, 4, 2, 3, 6.0, 0.5), (60, 4, 2, 4, 5.0, 0.0), (45, 2, 2, 3, 5.0, 0.2), (30, 3, 3, 2, 5.0, 0.0),
+                  (40, 2, 2, 2, 6.0, 1.0), (90, 5, 2, 3, 10.0, 0.5)]
     # coincident samples: all identical (centred data is all zero: F43), and two groups of identical samples
     for (N, theta) in [(10, 0.5), (8, 0.0)]:
         v = [rng.randint(-3, 3) + 0.5 for _ in range(2)]
@@ -574,9 +582,9 @@ def eval_cases(ctx, exe, mexe, cases, stats, spec_only=False):
         except (ValueError, IndexError, TypeError, ZeroDivisionError, OverflowError) as ex:
             verdict = ("violation", "output of the implementation cannot be parsed / is not a number: %r" % (ex,))
         if verdict:
-            kind, why = verdict
+            kind, why = verdict[0], verdict[1]
             if kind == "violation":
-                ctx.violation(c, why)
+                ctx.violation(c, why, signature=(verdict[2] if len(verdict) > 2 else None))
             else:
                 ctx.mismatch(c, why)
     # Barnes-Hut convergence: per original case the three errors
@@ -599,9 +607,9 @@ def eval_cases(ctx, exe, mexe, cases, stats, spec_only=False):
         for j, (_, handler, c) in enumerate(post):
             verdict = handler(pres[j])
             if verdict:
-                kind, why = verdict
+                kind, why = verdict[0], verdict[1]
                 if kind == "violation":
-                    ctx.violation(c, why)
+                    ctx.violation(c, why, signature=(verdict[2] if len(verdict) > 2 else None))
                 else:
                     ctx.mismatch(c, why)
     return len(runs) + len(post)
@@ -918,6 +926,13 @@ def check_pk(ctx, c, payload, post):
 
     def handler(out):
         bad = [j for j, t in enumerate(out) if t != "t"]
+        selfrows = [n for n in range(N) if n in col[n * K:(n + 1) * K]]
+        if selfrows and all(b in selfrows for b in bad):
+            q = selfrows[0]
+            return ("violation", "Barnes-Hut mode: row %d of P lists sample %d itself among its %d neighbours %s "
+                                 "(a coincident sample came first in the tree search and position 0 was dropped); "
+                                 "%d of %d rows" % (q, q, K, col[q * K:(q + 1) * K][:10], len(selfrows), N),
+                    "F44-tsne-bh-self-neighbour-coincident")
         if bad:
             q = bad[0]
             cols = col[q * K:(q + 1) * K]
@@ -942,7 +957,9 @@ def check_api(ctx, c, payload):
     if payload[0] != "OK":
         return ("violation", "t-SNE raised an undocumented exception: %s" % " ".join(payload[1:])[:200])
     rows, cols = int(payload[1]), int(payload[2])
-    Y = floats(payload[3:])
+    parts = split_bar(payload[3:])
+    Y = floats(parts[0])
+    logged = parts[1] if len(parts) > 1 else []
     if rows != N or cols != d or len(Y) != N * d:
         return ("violation", "t-SNE returned a %dx%d matrix for N=%d, d=%d" % (rows, cols, N, d))
     if any(v is None or math.isnan(v) or math.isinf(v) for v in Y):
@@ -954,8 +971,11 @@ def check_api(ctx, c, payload):
         if abs(mean) > 1e-9 * scale:
             return ("violation", "the returned map is not centred: mean of coordinate %d is %.3g (scale %.3g)" % (j, mean, scale))
     lab = c["labels"]
+    if theta > 0.5:
+        return None      # theta = 1 is a crude approximation: only shape / finite / centred are claimed
     if d < 2:
-        return None      # a one-dimensional map cannot untangle a random start: only shape / finite / centred
+        # a one-dimensional map cannot untangle a random start: no purity clause
+        return check_reported_kl(c, X, Ym, logged)
     bad = 0
     for a in range(N):
         best = min((sum((Ym[a][j] - Ym[b][j]) ** 2 for j in range(d)), b) for b in range(N) if b != a)[1]
@@ -964,6 +984,96 @@ def check_api(ctx, c, payload):
     if bad > 0.1 * N:
         return ("violation", "well-separated input clusters are mixed in the map: %d of %d points have their nearest "
                              "map neighbour in another cluster" % (bad, N))
+    return check_reported_kl(c, X, Ym, logged)
+
+
+FLT_MIN = 1.1754943508222875e-38
+
+
+def spec_joint(X, perp, theta):
+    """the joint P the property prescribes, in binary64 along the library's own order of operations:
+    centre, divide by the largest entry, conditional rows at the given perplexity (all others / the K nearest),
+    symmetrise, normalise.  Returns a dict {(n, m): p} or None when a row's target entropy is unattainable or the
+    K-th neighbour is tied (the set is then not unique)."""
+    N, D = len(X), len(X[0])
+    mean = [0.0] * D
+    for p in X:
+        for j in range(D):
+            mean[j] += p[j]
+    mean = [m / N for m in mean]
+    Xc = [[p[j] - mean[j] for j in range(D)] for p in X]
+    mx = max(v for p in Xc for v in p)
+    if mx > 0:
+        Xc = [[v / mx for v in p] for p in Xc]
+    cond = {}
+    for n in range(N):
+        dd = [sum((a - b) ** 2 for a, b in zip(Xc[n], Xc[m])) for m in range(N)]
+        if theta == 0.0:
+            found, row, _ = perp_row_mirror(dd, n, perp)
+            if not found:
+                return None
+            for m in range(N):
+                cond[(n, m)] = row[m]
+        else:
+            K = int(3 * perp)
+            order = sorted((m for m in range(N) if m != n), key=lambda m: dd[m])
+            if K < len(order) and dd[order[K]] - dd[order[K - 1]] <= 1e-12 * (1 + dd[order[K]]):
+                return None
+            nb = order[:K]
+            found, row, _ = perp_row_mirror([math.sqrt(dd[m]) ** 2 for m in nb], None, perp)
+            if not found:
+                return None
+            for m, v in zip(nb, row):
+                cond[(n, m)] = v
+    joint = {}
+    if theta == 0.0:
+        for n in range(N):
+            for m in range(N):
+                joint[(n, m)] = cond[(n, n)] if n == m else cond[(n, m)] + cond[(m, n)]
+    else:
+        for (n, m) in cond:
+            joint[(n, m)] = (cond[(n, m)] + cond.get((m, n), 0.0)) / 2.0
+            joint[(m, n)] = joint[(n, m)]
+    tot = sum(joint.values())
+    return {k: v / tot for k, v in joint.items()}
+
+
+def check_reported_kl(c, X, Ym, logged):
+    """the KL divergence the library logs at its last iteration is KL(P || Q(map)) for ITS internal P and the map it
+    returns: compare with the prescribed P (ties the symmetrisation / normalisation / exaggeration schedule inside
+    run(), which no member function exposes)."""
+    N, d = len(X), c["d"]
+    theta, perp = hx(c["theta"]), hx(c["perp"])
+    if len(logged) != 2 or len(set(tuple(p) for p in X)) < N:
+        return None
+    it, C = int(logged[0]), hx(logged[1])
+    if it != 999:
+        return ("mismatch", "the last logged error line is for iteration %d, expected 999" % it)
+    P = spec_joint(X, perp, theta)
+    if P is None or C is None:
+        return None
+    w = {}
+    Z = 0.0
+    for a in range(N):
+        for b in range(N):
+            if a != b:
+                w[(a, b)] = 1.0 / (1.0 + sum((Ym[a][j] - Ym[b][j]) ** 2 for j in range(d)))
+                Z += w[(a, b)]
+    if theta == 0.0:
+        Zg = DBL_MIN + Z
+        Cs = 0.0
+        for (a, b), pv in P.items():
+            q = (DBL_MIN if a == b else w[(a, b)]) / Zg
+            Cs += pv * math.log((pv + 1e-9) / (q + 1e-9))
+        tol = 1e-6 * max(1.0, abs(Cs))
+    else:
+        Cs = sum(pv * math.log((pv + FLT_MIN) / (w[(a, b)] / Z + FLT_MIN)) for (a, b), pv in P.items() if a != b)
+        tol = (1e-6 if theta <= 0.01 else 0.1 if theta <= 0.5 else 0.3) * max(1.0, abs(Cs))
+    if not abs(C - Cs) <= tol:
+        return ("violation", "the error t-SNE reports at its last iteration (%.9g) is not KL(P||Q) of the prescribed joint "
+                             "similarities (perplexity %.6g, %s) and the returned map (%.9g): the P used by the optimisation "
+                             "is not the calibrated, symmetrised, normalised one" % (
+                                 C, perp, "all others" if theta == 0.0 else "%d nearest" % int(3 * perp), Cs))
     return None
 
 
